@@ -99,13 +99,18 @@ package tree
 //@   loop 0 invariant foundOtherThenRunningAndDefault == exists(j, 0, $n, intentOwned(lv.les[j]))
 //@   loop 0 invariant forall(j, 0, $n, intentOwned(lv.les[j]) ==> lv.les[j].Delete && !lv.les[j].DeleteOnlyIntended)
 
+// a leaf the device holds and no intent defines (running, besides the schema default) is left alone; otherwise the
+// leaf can go when every intent value is marked for removal from the device
 //@ func (*LeafVariants).canDelete
 //@   props C01
 //@   requires lvOK(lv)
 //@   modifies nothing
 //@   ensures spec: result == (len(lv.les) == 0 ||
-//@            (!(len(lv.les) == 1 && lv.les[0].Update.owner == RunningIntentName) &&
+//@            (!(exists(i, 0, len(lv.les), lv.les[i].Update.owner == RunningIntentName) && forall(i, 0, len(lv.les), !intentOwned(lv.les[i]))) &&
 //@             forall(i, 0, len(lv.les), intentOwned(lv.les[i]) ==> lv.les[i].Delete && !lv.les[i].DeleteOnlyIntended)))
+//@   ensures device_only_value_is_left_alone [C01]: exists(i, 0, len(lv.les), lv.les[i].Update.owner == RunningIntentName) && forall(i, 0, len(lv.les), !intentOwned(lv.les[i])) ==> !result
+//@   loop 1 invariant hasRunning == exists(j, 0, $n, lv.les[j].Update.owner == RunningIntentName)
+//@   loop 1 invariant onlyRunningOrDefault == forall(j, 0, $n, !intentOwned(lv.les[j]))
 //@   loop 0 invariant forall(j, 0, $n, intentOwned(lv.les[j]) ==> lv.les[j].Delete && !lv.les[j].DeleteOnlyIntended)
 
 //@ func (*LeafVariants).remainsToExist
@@ -601,11 +606,16 @@ package tree
 //@   requires s != nil && s.leafVariants != nil && lvOK(s.leafVariants) && s.cacheMutex != nil
 //@   uses canDelete: verdict
 //@   uses shouldDelete: verdict
-//@   internal unfolds: old(s.cacheShouldDelete) == nil ==> result == (callres(LeafVariants_shouldDelete) ||
+//@   internal unfolds: old(s.cacheShouldDelete) == nil ==> result == (
+//@            (callres(LeafVariants_shouldDelete) && allstr(k, present(callres(filterActiveChoiceCaseChilds), k) ==> cdel(callres(filterActiveChoiceCaseChilds)[k]))) ||
 //@            (exstr(k, present(callres(filterActiveChoiceCaseChilds), k)) &&
 //@             allstr(k, present(callres(filterActiveChoiceCaseChilds), k) ==> cdel(callres(filterActiveChoiceCaseChilds)[k])) &&
 //@             exstr(k, present(callres(filterActiveChoiceCaseChilds), k) && sdel(callres(filterActiveChoiceCaseChilds)[k])) &&
 //@             callres(LeafVariants_canDelete)))
+// an active child that has to stay keeps the entry, whatever the entry's own leaf variants say (a presence container one
+// intent gives up while values below it remain)
+//@   internal a_child_that_has_to_stay_keeps_the_entry [C01]: old(s.cacheShouldDelete) == nil &&
+//@            exstr(k, present(callres(filterActiveChoiceCaseChilds), k) && !cdel(callres(filterActiveChoiceCaseChilds)[k])) ==> !result
 //@   loop 0 invariant children_so_far: $map == callres(filterActiveChoiceCaseChilds) && allstr(k, $visited[k] ==> present($map, k) && cdel($map[k])) &&
 //@            (canDelete == exstr(k, $visited[k])) && (shouldDelete == exstr(k, $visited[k] && sdel($map[k])))
 
